@@ -45,6 +45,64 @@ Proof. intros H. unfold valid_utf8 in *. rewrite segs_firstn_off. apply forallb_
 Lemma runes_app_valid a b : valid_utf8 a = true -> runes (a ++ b) = runes a ++ runes b.
 Proof. intros H. unfold runes. rewrite segs_app_valid by exact H. apply map_app. Qed.
 
+(* ---------- UTF-8 preserves code-point order ---------- *)
+
+Lemma bytes_compare_app_same e x y : bytes_compare (e ++ x) (e ++ y) = bytes_compare x y.
+Proof. induction e as [|b e IH]; [reflexivity|]. cbn [app bytes_compare]. rewrite Z.ltb_irrefl. exact IH. Qed.
+
+Lemma utf8_order r1 r2 x y :
+  valid_rune r1 = true -> valid_rune r2 = true -> r1 < r2 ->
+  bytes_compare (encode r1 ++ x) (encode r2 ++ y) = -1.
+Proof.
+  unfold valid_rune, MaxRune. intros V1 V2 L. unfold encode.
+  destruct ((0 <=? r1) && (r1 <? 128)) eqn:A1; destruct ((0 <=? r2) && (r2 <? 128)) eqn:A2; try lia;
+  destruct ((0 <=? r1) && (r1 <? 2048)) eqn:B1; destruct ((0 <=? r2) && (r2 <? 2048)) eqn:B2; try lia;
+  unfold valid_rune, MaxRune; rewrite ?V1, ?V2; cbn [negb];
+  destruct (r1 <? 65536) eqn:C1; destruct (r2 <? 65536) eqn:C2; try lia;
+  cbn [app bytes_compare];
+  repeat match goal with |- context [if ?c then _ else _] => destruct c eqn:? end; try reflexivity; exfalso; lia.
+Qed.
+
+Lemma utf8_order_gt r1 r2 x y :
+  valid_rune r1 = true -> valid_rune r2 = true -> r2 < r1 ->
+  bytes_compare (encode r1 ++ x) (encode r2 ++ y) = 1.
+Proof.
+  unfold valid_rune, MaxRune. intros V1 V2 L. unfold encode.
+  destruct ((0 <=? r1) && (r1 <? 128)) eqn:A1; destruct ((0 <=? r2) && (r2 <? 128)) eqn:A2; try lia;
+  destruct ((0 <=? r1) && (r1 <? 2048)) eqn:B1; destruct ((0 <=? r2) && (r2 <? 2048)) eqn:B2; try lia;
+  unfold valid_rune, MaxRune; rewrite ?V1, ?V2; cbn [negb];
+  destruct (r1 <? 65536) eqn:C1; destruct (r2 <? 65536) eqn:C2; try lia;
+  cbn [app bytes_compare];
+  repeat match goal with |- context [if ?c then _ else _] => destruct c eqn:? end; try reflexivity; exfalso; lia.
+Qed.
+
+(* UTF-8 preserves code-point order: on well-formed strings the order of the code-point sequences is the byte order *)
+Lemma lex_runes_bytes n : forall s t, (length s <= n)%nat -> wf s -> wf t -> valid_utf8 s = true -> valid_utf8 t = true ->
+  lex (runes s) (runes t) = bytes_compare s t.
+Proof.
+  induction n as [|n IH]; intros s t Hn Hws Hwt Hvs Hvt.
+  - destruct s; [|cbn in Hn; lia]. destruct t as [|c t']; [reflexivity|]. unfold runes at 2. rewrite segs_cons. reflexivity.
+  - destruct s as [|b l]; [destruct t as [|c t']; [reflexivity|unfold runes at 2; rewrite segs_cons; reflexivity]|].
+    destruct t as [|c t']; [unfold runes at 1; rewrite segs_cons; reflexivity|].
+    rewrite valid_utf8_cons in Hvs, Hvt. apply andb_true_iff in Hvs as [Hv1 Hv1']. apply andb_true_iff in Hvt as [Hv2 Hv2'].
+    destruct (encode_decode b l Hws (valid_seg_not_RE1 _ Hv1)) as [E1 V1].
+    destruct (encode_decode c t' Hwt (valid_seg_not_RE1 _ Hv2)) as [E2 V2].
+    pose proof (decode_width_pos b l) as W1. pose proof (decode_width_le (b :: l)) as L1.
+    set (r1 := fst (decode (b :: l))) in *. set (r2 := fst (decode (c :: t'))) in *.
+    set (s' := skipn (snd (decode (b :: l))) (b :: l)) in *. set (t2 := skipn (snd (decode (c :: t'))) (c :: t')) in *.
+    assert (Es : b :: l = encode r1 ++ s') by (rewrite <- E1; symmetry; apply firstn_skipn).
+    assert (Et : c :: t' = encode r2 ++ t2) by (rewrite <- E2; symmetry; apply firstn_skipn).
+    assert (Rs : runes (b :: l) = r1 :: runes s') by (unfold runes; rewrite segs_cons; reflexivity).
+    assert (Rt : runes (c :: t') = r2 :: runes t2) by (unfold runes; rewrite segs_cons; reflexivity).
+    rewrite Rs, Rt, Es, Et. cbn [lex].
+    destruct (Z.lt_trichotomy r1 r2) as [Lt|[Eq|Gt]].
+    + replace (r1 =? r2) with false by lia. rewrite (utf8_order r1 r2 s' t2 V1 V2 Lt). unfold clamp. replace (r1 - r2 <? 0) with true by lia. reflexivity.
+    + replace (r1 =? r2) with true by lia. rewrite Eq, bytes_compare_app_same.
+      apply IH; [unfold s'; rewrite skipn_length; cbn [length] in *; lia|apply wf_skipn; exact Hws|apply wf_skipn; exact Hwt|exact Hv1'|exact Hv2'].
+    + replace (r1 =? r2) with false by lia. rewrite (utf8_order_gt r1 r2 s' t2 V1 V2 Gt). unfold clamp.
+      replace (r1 - r2 <? 0) with false by lia. replace (0 <? r1 - r2) with true by lia. reflexivity.
+Qed.
+
 Lemma bool_eq_iff'' (a b : bool) : (a = true <-> b = true) -> a = b.
 Proof. destruct a, b; intros [H1 H2]; try reflexivity; [symmetry; apply H1; reflexivity|apply H2; reflexivity]. Qed.
 
@@ -119,6 +177,13 @@ Proof.
     destruct (prefixb t (skipn q s)) eqn:P; [|reflexivity]. exfalso.
     apply (align s t q Hws Hvs Hwt Hvt Hne) in P as (a & Ha & Oa & Pa).
     rewrite (find_first_none _ _ _ F a) in Pa. discriminate.
+Qed.
+
+Theorem caseless_compare : compare fold s t = std_compare s t.
+Proof.
+  destruct Hcs as [Hvs _]. destruct Hct as [Hvt _].
+  unfold compare, std_compare. rewrite (key_caseless s Hcs), (key_caseless t Hct).
+  apply (lex_runes_bytes (length s)); try assumption; lia.
 Qed.
 
 Theorem caseless_contains : contains fold s t = std_contains s t.
